@@ -22,7 +22,7 @@ const P: &str = "C18";
 fn gen_bits(rng: &mut Prng, big: bool) -> u64 {
     if big && rng.chance(1, 6) {
         // far beyond any internal block size: 32-bit word counts that are odd / even / powers of two
-        return *rng.pick(&[32_768u64, 32_769, 32_800, 32_801, 65_536, 65_567, 40_033, 70_001, 131_072, 131_073, 131_104, 131_105, 140_001, 262_177, 300_033]);
+        return *rng.pick(&[32_768u64, 32_769, 32_800, 32_801, 65_536, 65_567, 40_033, 70_001, 131_072, 131_073, 131_104, 131_105, 140_001, 262_177, 300_033, 524_288, 524_289, 524_321, 600_033, 1_048_609]);
     }
     match rng.below(12) {
         0 => 0,
@@ -224,9 +224,9 @@ pub fn gen(rng: &mut Prng, plan: &mut Plan) {
                 if let Some(wd) = width {
                     script_for_bound(rng, &wd, &mut words);
                 }
-                let op = *rng.pick(&["urange", "sample_single_u", "gen_range_u", "uniform_u", "uniform_u"]);
+                let op = *rng.pick(&["urange", "sample_single_u", "sample_single_u", "gen_range_u", "uniform_u", "uniform_u"]);
                 let mut s = push_nat(push_nat(Step::new(op), "l", &l), "u", &u);
-                if op == "uniform_u" || op == "gen_range_u" {
+                if op == "uniform_u" || op == "gen_range_u" || op == "sample_single_u" {
                     s = s.i("incl", incl as i128);
                 }
                 if op == "uniform_u" {
@@ -268,9 +268,9 @@ pub fn gen(rng: &mut Prng, plan: &mut Plan) {
                     let wd = if incl { d.mag.add_small(1) } else { d.mag.clone() };
                     script_for_bound(rng, &wd, &mut words);
                 }
-                let op = *rng.pick(&["irange", "sample_single_i", "gen_range_i", "uniform_i", "uniform_i"]);
+                let op = *rng.pick(&["irange", "sample_single_i", "sample_single_i", "gen_range_i", "uniform_i", "uniform_i"]);
                 let mut s = push_int(push_int(Step::new(op), "l", &l), "u", &u);
-                if op == "uniform_i" || op == "gen_range_i" {
+                if op == "uniform_i" || op == "gen_range_i" || op == "sample_single_i" {
                     s = s.i("incl", incl as i128);
                 }
                 if op == "uniform_i" {
@@ -578,7 +578,13 @@ pub fn exec(plan: &Plan) -> RunResult {
                     let u = u_from_ref(&get_nat(s, "u"));
                     catch(|| match op {
                         "urange" => Got::U(vec![r.gen_biguint_range(&l, &u)]),
-                        "sample_single_u" => Got::U(vec![UniformBigUint::sample_single(&l, &u, r)]),
+                        "sample_single_u" => {
+                            if incl {
+                                Got::U(vec![UniformBigUint::sample_single_inclusive(&l, &u, r)])
+                            } else {
+                                Got::U(vec![UniformBigUint::sample_single(&l, &u, r)])
+                            }
+                        }
                         "gen_range_u" => {
                             if incl {
                                 Got::U(vec![r.gen_range(l.clone()..=u.clone())])
@@ -603,7 +609,13 @@ pub fn exec(plan: &Plan) -> RunResult {
                     let u = i_from_ref(&get_int(s, "u"));
                     catch(|| match op {
                         "irange" => Got::I(vec![r.gen_bigint_range(&l, &u)]),
-                        "sample_single_i" => Got::I(vec![UniformBigInt::sample_single(&l, &u, r)]),
+                        "sample_single_i" => {
+                            if incl {
+                                Got::I(vec![UniformBigInt::sample_single_inclusive(&l, &u, r)])
+                            } else {
+                                Got::I(vec![UniformBigInt::sample_single(&l, &u, r)])
+                            }
+                        }
                         "gen_range_i" => {
                             if incl {
                                 Got::I(vec![r.gen_range(l.clone()..=u.clone())])
